@@ -1,0 +1,192 @@
+//go:build verif
+
+// Contracts for the container collections (C02): representation invariants of
+// sliceContainers / bTreeContainers and their refinement of the abstract map
+// key -> *Container.  Comment-only file (build tag verif).
+
+package roaring
+
+// ---- sliceContainers -----------------------------------------------------------
+// abstract map: key k maps to container c iff some index holds (k, c)
+
+//@ spec scMaps(sc *sliceContainers, k int, c *Container) = exists i :: 0 <= i && i < len(sc.keys) && sc.keys[i] == k && sc.containers[i] == c
+//@ spec scHasKey(sc *sliceContainers, k int) = exists i :: 0 <= i && i < len(sc.keys) && sc.keys[i] == k
+//@ spec scShape(sc *sliceContainers) = sc != nil && len(sc.keys) == len(sc.containers) && sorted64(sc.keys) && len(sc.keys) <= 1000000
+//@ spec scLookaside(sc *sliceContainers) = sc.lastContainer != nil ==> scMaps(sc, sc.lastKey, sc.lastContainer)
+//@ spec scRI(sc *sliceContainers) = scShape(sc) && scLookaside(sc)
+
+//@ contract (*sliceContainers).Get props C02
+//@   requires scRI(sc)
+//@   ensures result != nil ==> scMaps(sc, key, result)
+//@   ensures scHasKey(sc, key) ==> scMaps(sc, key, result)
+//@   ensures !scHasKey(sc, key) ==> result == nil
+//@   modifies nothing
+
+//@ contract (*sliceContainers).insertAt props C02
+//@   requires sc != nil && len(sc.keys) == len(sc.containers) && 0 <= i && i <= len(sc.keys) && len(sc.keys) <= 1000000
+//@   ensures len(sc.keys) == old(len(sc.keys)) + 1 && len(sc.containers) == len(sc.keys)
+//@   ensures sc.keys[i] == key && sc.containers[i] == c
+//@   ensures forall j :: 0 <= j && j < i ==> sc.keys[j] == old(sc.keys[j])
+//@   ensures forall j :: 0 <= j && j < i ==> sc.containers[j] == old(sc.containers[j])
+//@   ensures forall j :: i <= j && j < old(len(sc.keys)) ==> sc.keys[j+1] == old(sc.keys[j])
+//@   ensures forall j :: i <= j && j < old(len(sc.keys)) ==> sc.containers[j+1] == old(sc.containers[j])
+//@   ensures sc.lastKey == old(sc.lastKey) && sc.lastContainer == old(sc.lastContainer)
+//@   ensures forall k, c2 :: old(scMaps(sc, k, c2)) ==> scMaps(sc, k, c2)
+//@   ensures forall k, c2 :: scMaps(sc, k, c2) ==> ((k == key && c2 == c) || old(scMaps(sc, k, c2)))
+//@   ensures scMaps(sc, key, c)
+//@   modifies sc.keys, sc.containers, elems(sc.keys), elems(sc.containers)
+
+//@ contract (*sliceContainers).Put props C02
+//@   requires scRI(sc)
+//@   ensures len(sc.keys) == len(sc.containers) && len(sc.keys) <= 1000001
+//@   ensures sorted64(sc.keys)
+//@   ensures scMaps(sc, key, c)
+//@   ensures scLookaside(sc)
+//@   ensures forall k, c2 :: k != key && old(scMaps(sc, k, c2)) ==> scMaps(sc, k, c2)
+//@   ensures forall k, c2 :: k != key && scMaps(sc, k, c2) ==> old(scMaps(sc, k, c2))
+//@   modifies sc.keys, sc.containers, sc.lastContainer, elems(sc.keys), elems(sc.containers)
+
+//@ contract (*sliceContainers).GetOrCreate props C02
+//@   requires scRI(sc)
+//@   ensures len(sc.keys) == len(sc.containers) && len(sc.keys) <= 1000001
+//@   ensures sorted64(sc.keys)
+//@   ensures scMaps(sc, key, result)
+//@   ensures scLookaside(sc)
+//@   ensures old(scHasKey(sc, key)) ==> old(scMaps(sc, key, result))
+//@   ensures !old(scHasKey(sc, key)) ==> result != nil && fresh(result)
+//@   ensures forall k, c2 :: k != key && old(scMaps(sc, k, c2)) ==> scMaps(sc, k, c2)
+//@   ensures forall k, c2 :: k != key && scMaps(sc, k, c2) ==> old(scMaps(sc, k, c2))
+
+//@ contract (*sliceContainers).Remove props C02
+//@   requires scRI(sc)
+//@   ensures len(sc.keys) == len(sc.containers)
+//@   ensures old(scHasKey(sc, key)) ==> len(sc.keys) == old(len(sc.keys)) - 1
+//@   ensures sorted64(sc.keys)
+//@   ensures !scHasKey(sc, key)
+//@   ensures forall k, c2 :: k != key && old(scMaps(sc, k, c2)) ==> scMaps(sc, k, c2)
+//@   ensures forall k, c2 :: scMaps(sc, k, c2) ==> k != key && old(scMaps(sc, k, c2))
+//@   ensures scLookaside(sc)
+//@   modifies sc.keys, sc.containers, sc.lastKey, sc.lastContainer, elems(sc.keys), elems(sc.containers)
+
+//@ contract (*sliceContainers).seek props C02
+//@   requires scShape(sc)
+//@   ensures 0 <= result0 && result0 <= len(sc.keys)
+//@   ensures result1 ==> result0 < len(sc.keys) && sc.keys[result0] == key
+//@   ensures !result1 ==> (forall k :: 0 <= k && k < result0 ==> sc.keys[k] < key) && (forall k :: result0 <= k && k < len(sc.keys) ==> sc.keys[k] > key)
+//@   modifies nothing
+
+//@ contract (*sliceContainers).Last props C02
+//@   requires scShape(sc)
+//@   ensures len(sc.keys) == 0 ==> key == 0 && c == nil
+//@   ensures len(sc.keys) > 0 ==> scMaps(sc, key, c) && (forall i :: 0 <= i && i < len(sc.keys) ==> sc.keys[i] <= key)
+//@   modifies nothing
+
+//@ contract (*sliceContainers).Size props C02
+//@   requires sc != nil
+//@   ensures result == len(sc.keys)
+//@   modifies nothing
+
+//@ contract (*sliceContainers).Reset props C02
+//@   requires sc != nil
+//@   ensures scRI(sc) && len(sc.keys) == 0
+//@   modifies sc.keys, sc.containers, sc.lastKey, sc.lastContainer
+
+//@ contract (*sliceIterator).Next props C02
+//@   requires si != nil && (si.e == nil || (scShape(si.e) && 0 <= si.i && si.i <= len(si.e.keys)))
+//@   ensures result ==> si.e != nil && old(si.i) < si.i && si.i <= len(si.e.keys) && si.value != nil && si.key == si.e.keys[si.i-1] && si.value == si.e.containers[si.i-1]
+//@   ensures result ==> (forall k :: old(si.i) <= k && k < si.i - 1 ==> si.e.containers[k] == nil)
+//@   ensures !result && si.e != nil ==> si.i == len(si.e.keys) && (forall k :: old(si.i) <= k && k < len(si.e.keys) ==> si.e.containers[k] == nil)
+//@   modifies si.i, si.key, si.value
+//@   loop 1 invariant si.e == old(si.e) && scShape(si.e) && old(si.i) <= si.i && si.i <= len(si.e.keys)
+//@   loop 1 invariant forall k :: old(si.i) <= k && k < si.i ==> si.e.containers[k] == nil
+//@   loop 1 decreases len(si.e.keys) - si.i
+
+// ---- bTreeContainers -------------------------------------------------------------
+// btree.go is trusted against this abstract-map contract: $map[k] is the stored
+// container (nil when absent or stored as nil), $has[k] says k is present.
+
+//@ ghost tree.$map map[uint64]*Container
+//@ ghost tree.$has set[uint64]
+//@ ghost tree.$len int
+
+//@ contract treeNew trusted props C02
+//@   modifies nothing
+//@   ensures result != nil && fresh(result) && result.$len == 0
+//@   ensures forall k :: result.$map[k] == nil && !result.$has[k]
+//@ contract (*tree).Get trusted pure props C02
+//@   requires t != nil
+//@   ensures v == t.$map[k] && (ok <==> t.$has[k]) && (!ok ==> v == nil)
+//@ contract (*tree).Set trusted props C02
+//@   requires t != nil
+//@   modifies t.$map, t.$has, t.$len
+//@   ensures t.$map[k] == v && t.$has[k]
+//@   ensures forall j :: j != k ==> t.$map[j] == old(t.$map[j]) && (t.$has[j] <==> old(t.$has[j]))
+//@ contract (*tree).Delete trusted props C02
+//@   requires t != nil
+//@   modifies t.$map, t.$has, t.$len
+//@   ensures t.$map[k] == nil && !t.$has[k] && (ok <==> old(t.$has[k]))
+//@   ensures forall j :: j != k ==> t.$map[j] == old(t.$map[j]) && (t.$has[j] <==> old(t.$has[j]))
+//@ contract (*tree).Put trusted props C02
+//@   requires t != nil
+//@   modifies t.$map, t.$has, t.$len, Container.*, elemtype uint16, elemtype uint64, elemtype interval16
+//@   ensures forall j :: j != k ==> t.$map[j] == old(t.$map[j]) && (t.$has[j] <==> old(t.$has[j]))
+//@ contract (*tree).Len trusted pure props C02
+//@   requires t != nil
+//@   ensures result == t.$len && result >= 0
+//@ contract (*tree).Last trusted pure props C02
+//@   requires t != nil && t.$len > 0
+//@   ensures t.$has[k] && v == t.$map[k] && (forall j :: t.$has[j] ==> j <= k)
+
+//@ spec btcRI(btc *bTreeContainers) = btc != nil && btc.tree != nil && (btc.lastKey == 18446744073709551615 || btc.lastContainer == btc.tree.$map[btc.lastKey])
+
+//@ contract newBTreeContainers props C02
+//@   ensures btcRI(result) && fresh(result) && (forall k :: result.tree.$map[k] == nil)
+
+//@ contract (*bTreeContainers).Get props C02
+//@   requires btcRI(btc) && key <= 281474976710655
+//@   ensures btcRI(btc) && result == btc.tree.$map[key]
+//@   modifies btc.lastKey, btc.lastContainer
+
+//@ contract (*bTreeContainers).Put props C02
+//@   requires btcRI(btc)
+//@   ensures btcRI(btc) && btc.tree.$map[key] == c
+//@   ensures forall j :: j != key ==> btc.tree.$map[j] == old(btc.tree.$map[j])
+//@   modifies btc.lastKey, btc.lastContainer, btc.tree.$map, btc.tree.$has, btc.tree.$len
+
+//@ contract (*bTreeContainers).Remove props C02
+//@   requires btcRI(btc)
+//@   ensures btcRI(btc) && btc.tree.$map[key] == nil
+//@   ensures forall j :: j != key ==> btc.tree.$map[j] == old(btc.tree.$map[j])
+//@   modifies btc.lastKey, btc.lastContainer, btc.tree.$map, btc.tree.$has, btc.tree.$len
+
+//@ contract (*bTreeContainers).GetOrCreate props C02
+//@   requires btcRI(btc) && key <= 281474976710655
+//@   ensures btcRI(btc) && result == btc.tree.$map[key]
+//@   ensures old(btc.tree.$has[key]) ==> result == old(btc.tree.$map[key])
+//@   ensures forall j :: j != key ==> btc.tree.$map[j] == old(btc.tree.$map[j])
+
+//@ contract (*bTreeContainers).Update props C02
+//@   requires btcRI(btc)
+//@   ensures btcRI(btc)
+//@   ensures forall j :: j != key ==> btc.tree.$map[j] == old(btc.tree.$map[j])
+
+//@ contract (*bTreeContainers).PutContainerValues props C02
+//@   requires btcRI(btc)
+//@   ensures btcRI(btc)
+//@   ensures forall j :: j != key ==> btc.tree.$map[j] == old(btc.tree.$map[j])
+
+//@ contract (*bTreeContainers).Reset props C02
+//@   requires btc != nil
+//@   ensures btcRI(btc) && (forall k :: btc.tree.$map[k] == nil)
+//@   modifies btc.tree, btc.lastKey, btc.lastContainer
+
+//@ contract (*bTreeContainers).Last props C02
+//@   requires btcRI(btc)
+//@   ensures btc.tree.$len == 0 ==> key == 0 && c == nil
+//@   ensures btc.tree.$len > 0 ==> c == btc.tree.$map[key] && (forall j :: btc.tree.$has[j] ==> j <= key)
+//@   modifies nothing
+
+//@ contract (*bTreeContainers).Size props C02
+//@   requires btcRI(btc)
+//@   ensures result == btc.tree.$len
+//@   modifies nothing
